@@ -88,6 +88,26 @@ example : remainSvars exInstK (Term.mkImplies (.svar "P" Ty.bool) (Term.mkImplie
     [.svar "Q" Ty.bool] := by
   simp [remainSvars, exInstK, Term.getSvars, Term.svarsAcc, Term.mkImplies, Ty.subst, Ty.bool, Ty.fn, List.lookup]
 
+/-- the instantiation of the example is type-complete -/
+private theorem ex_substK : Term.subst exInstK (Term.mkImplies (.svar "P" Ty.bool) (Term.mkImplies (.svar "Q" Ty.bool) (.svar "P" Ty.bool))) =
+      .ok (Term.mkImplies exA (Term.mkImplies (.svar "Q" Ty.bool) exA), exInstK.tyinst) := by
+  simp [Term.subst, exInstK, Term.getSvars, Term.svarsAcc, Term.mkImplies, Term.matchSvars, List.lookup, exA,
+    Term.checkedGetType, Ty.matchIncr, Ty.matchIncrList, Ty.bool, Ty.fn, Term.substType, Ty.subst, Term.substRec, bind, Except.bind]
+example : (applyTheoremREval exAxsK "K_ax" exInstK [⟨[exB], exA⟩]).isSome = true := by
+  have hr : remainSvars exInstK (Term.mkImplies (.svar "P" Ty.bool) (Term.mkImplies (.svar "Q" Ty.bool) (.svar "P" Ty.bool))) =
+      [.svar "Q" Ty.bool] := by
+    simp [remainSvars, exInstK, Term.getSvars, Term.svarsAcc, Term.mkImplies, Ty.subst, Ty.bool, Ty.fn, List.lookup]
+  have h0 : applyTheoremEval exAxsK "K_ax" exInstK [⟨[exB], exA⟩] =
+      some ⟨[exB], Term.mkImplies (.svar "Q" Ty.bool) exA⟩ := by
+    simp only [applyTheoremEval, exAxsK, List.lookup, beq_self_eq_true, ex_substK]
+    decide
+  have h1 : forallIntrAll ⟨[exB], Term.mkImplies (.svar "Q" Ty.bool) exA⟩ [.svar "Q" Ty.bool] ≠ none := by decide
+  simp only [applyTheoremREval, h0]
+  simp only [exAxsK, List.lookup, beq_self_eq_true, hr, List.reverse_cons, List.reverse_nil, List.nil_append]
+  cases hx : forallIntrAll ⟨[exB], Term.mkImplies (.svar "Q" Ty.bool) exA⟩ [.svar "Q" Ty.bool] with
+  | none => exact absurd hx h1
+  | some _ => rfl
+
 /-- `apply_theorem_for` (the same class with `with_inst`; `apply_theorem` is the call with the empty
 instantiation): for EVERY matcher (type-matching loop + `first_order_match_list` started from the given
 instantiation), under the conditions of the previous theorem on the matcher's answer, the accepted
